@@ -18,7 +18,7 @@ pub fn prop() -> Prop {
         rule: "proptest tapes decoding to a drawable (all item kinds of C01; a dedicated sub-check for triangles and polylines with stroke widths 2..=10) and an offset d in [-60,60]^2 (also d derived from the object's position so that it is moved across an axis). Oracle (metamorphic): pixel map of draw(x.translate(d)) == pixel map of draw(x) shifted by d; same for translate_mut, for Styled::translate, for polylines whose vertices are moved instead, for points() (as a sequence), contains() on a probe grid, non-empty bounding boxes, and the next position returned by text. Non-trivial: d != 0, >= 2 pixels, and for the thick-join sub-check width >= 2 with a non-colinear join.",
         assumptions: vec!["coordinates stay within +-200 so no arithmetic overflow can interfere"],
         subs: vec![
-            Sub::tape("items", 60, 150_000, 7_500_000, |d, cx| run_items(d, cx)),
+            Sub::tape("items", 300, 150_000, 7_500_000, |d, cx| run_items(d, cx)),
             Sub::tape("thick_joins", 40, 100_000, 5_000_000, thick_joins),
             Sub::tape("large", 40, 1_500, 75_000, large),
             Sub::tape("primitives_queries", 30, 100_000, 5_000_000, queries).with_fp(),
